@@ -326,8 +326,54 @@ def run_src(abort, root, hexs):
     return "SAME"
 
 
+import re
+
+ANSI = re.compile("\x1b\\[[0-9;]*m")
+PRETTY_ROW = re.compile(
+    "^\x1b\\[34m(?P<type>.*?)\x1b\\[0m\\s*\x1b\\[30m(?P<indent>.*?)\x1b\\[0m\x1b\\[92m\\.(?P<name>.*?)\x1b\\[0m\\s*"
+    "\x1b\\[33m(?P<hex>.*?)\x1b\\[0m ?(?:\x1b\\[33m(?P<value>.*?)\x1b\\[0m)?$", re.S)
+
+
+def parse_pretty(line):
+    """columns of one pretty-printed row (delimited by the colour codes)"""
+    m = PRETTY_ROW.match(line)
+    if not m:
+        if line.startswith("\x1b[31m"):
+            return {"warning": ANSI.sub("", line)}
+        return None
+    d = m.groupdict()
+    return {"type": d["type"], "depth": d["indent"].count("|   "), "name": d["name"], "hex": d["hex"].strip(),
+            "value": d["value"] if d["value"] is not None else ""}
+
+
+def run_attr(name, v):
+    from tpmstream.common.event import MarshalEvent, Path
+    from tpmstream.common.path import PathNode
+    from tpmstream.io.pretty.unmarshal import pretty_attrs
+
+    t = PRIMS.get(name)
+    if t is None:
+        return "NOPRIM"
+    x = t(int(v))
+    ev = MarshalEvent(Path(PathNode("")) / PathNode("w"), t, x)
+    rows = [parse_pretty(l) for l in pretty_attrs(ev)]
+    attrs = x.attributes()
+    if len(rows) != len(attrs):
+        return "ROWS %d ATTRS %d" % (len(rows), len(attrs))
+    out = []
+    for a, r in zip(attrs, rows):
+        acc = getattr(x, a._name)
+        bits = r["value"].split(" ")[0] if r else "?"
+        if r is None or r["name"] != a._name:
+            bits = "?name"
+        out.append("%s=%d:%s" % (a._name, int(acc), bits))
+    return ",".join(out)
+
+
 def handle(line):
     parts = line.split(" ")
+    if parts[0] == "attr":
+        return run_attr(parts[2], parts[3])
     if parts[0] == "rt":
         return run_rt(parts[1] == "1", parts[2], parts[3])
     if parts[0] == "src":
